@@ -73,6 +73,123 @@ Proof.
   intros H. apply modul_eqb_spec in H. vm_compute in H. discriminate H.
 Qed.
 
+(* ------------------------------------------------------------------ components *)
+Lemma type_roundtrip t : get_type (write_type t) = Ok t.
+Proof. destruct t; reflexivity. Qed.
+
+Lemma unhex_hex n : 0 <= n < 16 -> unhexdigit (hexdigit n) = Some n.
+Proof.
+  intros H.
+  assert (E : n = 0 \/ n = 1 \/ n = 2 \/ n = 3 \/ n = 4 \/ n = 5 \/ n = 6 \/ n = 7 \/ n = 8 \/ n = 9
+              \/ n = 10 \/ n = 11 \/ n = 12 \/ n = 13 \/ n = 14 \/ n = 15) by lia.
+  repeat (destruct E as [->|E]; [reflexivity|]). subst. reflexivity.
+Qed.
+
+Lemma unhexlify_hexlify l : all_byte l = true -> unhexlify (hexlify l) = Ok l.
+Proof.
+  induction l as [|b r IH]; intros H; [reflexivity|].
+  unfold all_byte in *. cbn [forallb] in H. apply andb_prop in H. destruct H as [Hb Hr].
+  unfold is_byte in Hb.
+  cbn [hexlify unhexlify].
+  rewrite (unhex_hex (b / 16)) by lia. rewrite (unhex_hex (b mod 16)) by lia.
+  rewrite (IH Hr). cbn [bind]. f_equal. f_equal. lia.
+Qed.
+
+Lemma in_firstn {A} (x : A) n l : In x (firstn n l) -> In x l.
+Proof. intros H. rewrite <- (firstn_skipn n l). apply in_or_app. now left. Qed.
+Lemma in_skipn {A} (x : A) n l : In x (skipn n l) -> In x l.
+Proof. intros H. rewrite <- (firstn_skipn n l). apply in_or_app. now right. Qed.
+
+Lemma chunks_concat fuel : forall l, (List.length l <= fuel)%nat -> List.concat (chunks30 fuel l) = l.
+Proof.
+  induction fuel as [|n IH]; intros l Hl.
+  - destruct l; [reflexivity | cbn in Hl; lia].
+  - destruct l as [|x r]; [reflexivity|].
+    cbn [chunks30]. cbn [List.concat]. rewrite IH.
+    + apply firstn_skipn.
+    + rewrite skipn_length. cbn [List.length] in *. lia.
+Qed.
+Lemma chunks_bytes fuel : forall l p, all_byte l = true -> In p (chunks30 fuel l) -> all_byte p = true.
+Proof.
+  induction fuel as [|n IH]; intros l p Hl Hp; [contradiction|].
+  destruct l as [|x r]; [contradiction|].
+  cbn [chunks30 In] in Hp. destruct Hp as [<-|Hp].
+  - unfold all_byte in *. rewrite forallb_forall in *. intros y Hy. apply Hl. eapply in_firstn; eassumption.
+  - apply (IH (skipn 30 (x :: r))); [|assumption].
+    unfold all_byte in *. rewrite forallb_forall in *. intros y Hy. apply Hl. eapply in_skipn; eassumption.
+Qed.
+
+Lemma bytes_roundtrip d : all_byte d = true -> asc2bin (bin2asc d) = Ok d.
+Proof.
+  intros H. unfold bin2asc. destruct (30 <? len d).
+  - cbn [asc2bin].
+    rewrite (mapM_map_id (fun p => JStr (hexlify p))).
+    + cbn [bind]. rewrite chunks_concat by lia. reflexivity.
+    + intros p Hp. cbn [as_str bind]. apply unhexlify_hexlify. eapply chunks_bytes; eassumption.
+  - cbn [asc2bin]. now apply unhexlify_hexlify.
+Qed.
+
+Lemma const_roundtrip c : read_const (write_const c) = Ok c.
+Proof. destruct c; reflexivity. Qed.
+Lemma binop_name_roundtrip o : binop_of_name (binop_name o) = Some o.
+Proof. destruct o; reflexivity. Qed.
+Lemma unop_name_roundtrip o : unop_of_name (unop_name o) = Some o.
+Proof. destruct o; reflexivity. Qed.
+Lemma cond_name_roundtrip o : cond_of_name (cond_name o) = Some o.
+Proof. destruct o; reflexivity. Qed.
+Lemma binding_roundtrip b : construct_binding (binding_name b) = Ok b.
+Proof. destruct b; reflexivity. Qed.
+
+(* initial values of global variables (fix C16-1) *)
+Lemma init_roundtrip gn i : wf_init gn i = true -> read_init (write_init i) = Ok i.
+Proof.
+  destruct i as [d|t s]; intros H; cbn in H.
+  - unfold read_init, write_init, jstr. cbn [jget jlookup String.eqb Ascii.eqb Bool.eqb bind as_str].
+    cbn. rewrite bytes_roundtrip by assumption. reflexivity.
+  - unfold read_init, write_init, jstr. cbn. rewrite type_roundtrip. reflexivity.
+Qed.
+
+Definition reg_glob (name : string) (st : rst) : rst :=
+  mk_rst ((name, (Glob name, Ptr)) :: rs_glob st) (rs_loc st) false (rs_pend st) (rs_next st) (rs_bmap st)
+         (rs_funcs st) (rs_blocks st) (rs_ins st).
+Lemma register_glob name st (o : option instr) :
+  rs_infun st = false -> plookup name (rs_pend st) = None -> vlookup name (rs_glob st) = None ->
+  register name (Glob name) Ptr o st = Ok (o, reg_glob name st).
+Proof.
+  intros Hi Hp Hv. unfold register. rewrite Hp. cbn [bind]. rewrite Hi, Hv. reflexivity.
+Qed.
+
+Lemma variable_roundtrip gn g st :
+  wf_gvar gn g = true -> rs_infun st = false ->
+  plookup (g_name g) (rs_pend st) = None -> vlookup (g_name g) (rs_glob st) = None ->
+  construct_variable cfg_fixed (write_variable cfg_fixed g) st = Ok (g, reg_glob (g_name g) st).
+Proof.
+  destruct g as [n b a al v]. unfold wf_gvar. cbn [g_value g_name]. intros Hw Hi Hp Hv.
+  unfold construct_variable, write_variable, jstr, jint.
+  cbn [fix_value cfg_fixed g_name g_binding g_amount g_align g_value app].
+  cbn [jget jlookup String.eqb Ascii.eqb Bool.eqb bind as_str as_int].
+  cbn. rewrite binding_roundtrip. cbn [bind].
+  destruct v as [l|].
+  - rewrite (mapM_map_id write_init read_init).
+    + cbn [bind]. rewrite register_glob by assumption. reflexivity.
+    + intros x Hx. apply (init_roundtrip gn). rewrite forallb_forall in Hw. now apply Hw.
+  - cbn [bind]. rewrite register_glob by assumption. reflexivity.
+Qed.
+
+Lemma external_roundtrip e st :
+  rs_infun st = false ->
+  plookup (ext_name e) (rs_pend st) = None -> vlookup (ext_name e) (rs_glob st) = None ->
+  construct_external (write_external e) st = Ok (e, reg_glob (ext_name e) st).
+Proof.
+  intros Hi Hp Hv. destruct e as [n|n args rt|n args]; cbn [ext_name] in *;
+    unfold construct_external, write_external, jstr; cbn.
+  - rewrite register_glob by assumption. reflexivity.
+  - rewrite (mapM_map_id write_type get_type) by (intros; apply type_roundtrip).
+    cbn [bind]. rewrite type_roundtrip. cbn [bind]. rewrite register_glob by assumption. reflexivity.
+  - rewrite (mapM_map_id write_type get_type) by (intros; apply type_roundtrip).
+    cbn [bind]. rewrite register_glob by assumption. reflexivity.
+Qed.
+
 (* ------------------------------------------------------------------ bounded module round trip *)
 From PV Require Import Gen.c16_corpus.
 Definition corpus_ok (m : modul) : bool := wf_modul m && rt_ok cfg_fixed m.
